@@ -388,13 +388,18 @@ def squash_record(data, rng, preset):
             j += 1
         run = j - i
         use_run = run >= 2 and (preset in ("maximal", "edge") or rng.random() < 0.7)
+        if not use_run and preset in ("random", "edge") and rng.random() < 0.12:
+            # a repeat group of length ONE (count byte 129): legal, and what an encoder emits for an isolated byte
+            groups += bytes([129, v])
+            i += 1
+            continue
         if use_run:
             if preset == "maximal":
                 c = min(run, 127)
             elif preset == "edge":
                 c = min(run, rng.choice([127, 126, 2, 3, 64]))
             else:
-                c = rng.randint(2, min(run, 127))
+                c = rng.randint(1, min(run, 127))
             if c < 1:
                 c = 1
             groups += bytes([128 + c, v])
